@@ -411,7 +411,15 @@ pub fn random_json(rng: &mut Rng, depth: u32) -> Tree {
         1 => Tree::Bool(rng.chance(1, 2)),
         2 => Tree::Int(*rng.pick(&[0i128, 1, -1, i64::MAX as i128, i64::MIN as i128, u64::MAX as i128, 1 << 53, -(1 << 53), 42])),
         3 => Tree::Int(rng.next() as i64 as i128),
-        4 => Tree::Dbl(*rng.pick(&[Dbl::of(1.5), Dbl::of(-0.0), Dbl::of(1e300), Dbl::of(5e-324), Dbl::of(0.1)])),
+        4 => match rng.below(3) {
+            0 => Tree::Dbl(*rng.pick(&[Dbl::of(1.5), Dbl::of(-0.0), Dbl::of(1e300), Dbl::of(5e-324), Dbl::of(0.1)])),
+            // doubles that need all 17 significant digits, of everyday and of arbitrary magnitude
+            1 => Tree::Dbl(Dbl::of(100.0 + (rng.next() >> 11) as f64 / (1u64 << 53) as f64 * 100.0)),
+            _ => {
+                let x = f64::from_bits(rng.next());
+                Tree::Dbl(Dbl::of(if x.is_finite() { x } else { 0.1 }))
+            }
+        },
         5 => Tree::Str(rng.pick(&["", "NaN", "Infinity", "-Infinity", "true", "1", "QUJD", "é😀", "a\"b", "null"]).to_string()),
         6 => Tree::Arr(vec![]),
         7 => Tree::Obj(vec![]),
@@ -426,6 +434,14 @@ pub fn random_json(rng: &mut Rng, depth: u32) -> Tree {
             }
             Tree::Obj(ms)
         }
+    }
+}
+
+fn has_object(t: &Tree) -> bool {
+    match t {
+        Tree::Obj(_) => true,
+        Tree::Arr(xs) => xs.iter().any(has_object),
+        _ => false,
     }
 }
 
@@ -454,6 +470,10 @@ fn json_case(cs: &mut Cases, doc: &Tree) {
                 Ok(Ok(b)) => {
                     let t = serde_json::from_slice::<Tree>(&b).unwrap_or(Tree::Null);
                     if sort_tree(&t, None) != sort_tree(doc, None) {
+                        cs.fail_last("any:json-any-json", format!("{} re-serializes as {}", String::from_utf8_lossy(&bytes), String::from_utf8_lossy(&b)));
+                    } else if !has_object(doc) && b != bytes {
+                        // without objects there is no member order to allow for: the text itself must come back (every
+                        // number was written in its shortest form, which a correct reader and writer reproduce)
                         cs.fail_last("any:json-any-json", format!("{} re-serializes as {}", String::from_utf8_lossy(&bytes), String::from_utf8_lossy(&b)));
                     }
                 }
@@ -563,6 +583,50 @@ pub fn cases(seed: u64, tier: Tier) -> Cases {
                     cs.fail_last("any:json-differs:f32", format!("JSON of the Any is {} but JSON of the value is {}", j_any, j_val));
                 } else if back != w {
                     cs.fail_last("any:roundtrip:f32", format!("{:?} came back as {:?}", w, back));
+                }
+            }
+        }
+    }
+    // static types that themselves carry an `Any` made from a Rust value of some width (not from a document, where
+    // every number is 64 bits wide): the carried Any must come back as it was, alone, in a list, in a map, in a field
+    {
+        use conjure_object::Any;
+        use std::collections::BTreeMap;
+        #[derive(serde::Serialize, serde::Deserialize, PartialEq, Debug, Clone)]
+        struct WA {
+            a: Any,
+            l: Vec<Any>,
+            m: BTreeMap<String, Any>,
+            o: Option<Any>,
+        }
+        let mut inners: Vec<(String, Any)> = vec![];
+        macro_rules! inner {
+            ($($e:expr),*) => { $( if let Ok(a) = Any::new($e) { inners.push((stringify!($e).to_string(), a)); } )* };
+        }
+        inner!(0.1f32, -3.3f32, f32::MAX, 16777217.0f32, 0.1f64, 7u8, -7i8, 300u16, -300i16, 70000u32, -70000i32, u64::MAX, i64::MIN, 1u128 << 100, -(1i128 << 100), 'c', "s", true, (), Some(0.2f32), vec![0.3f32, 1.5f32], (1u8, 0.7f32));
+        for (txt, inner) in inners {
+            let wa = WA { a: inner.clone(), l: vec![inner.clone(), inner.clone()], m: [("k".to_string(), inner.clone())].into_iter().collect(), o: if txt == "()" { None } else { Some(inner.clone()) } }; // an optional holding the null Any is the empty optional
+            let (wa2, inner2) = (wa.clone(), inner.clone());
+            let r = guarded(move || {
+                let any = Any::new(&wa2).map_err(|e| e.to_string())?;
+                let j_any = conjure_serde::json::to_string(&any).map_err(|e| e.to_string())?;
+                let j_val = conjure_serde::json::to_string(&wa2).map_err(|e| e.to_string())?;
+                let back: WA = any.deserialize_into().map_err(|e| e.to_string())?;
+                let bare: Any = Any::new(&inner2).map_err(|e| e.to_string())?.deserialize_into().map_err(|e| e.to_string())?;
+                Ok::<_, String>((j_any, j_val, back, bare))
+            });
+            cs.push("carried-any", "noop".into(), "noop".into(), true, format!("a struct, list, map and option carrying Any::new({})", txt));
+            match r {
+                Err(p) => cs.fail_last("any:carried:panic", p),
+                Ok(Err(e)) => cs.fail_last("any:carried:failed", format!("Any::new({}): {}", txt, e)),
+                Ok(Ok((j_any, j_val, back, bare))) => {
+                    if j_any != j_val {
+                        cs.fail_last("any:json-differs:carried", format!("JSON of the Any is {} but JSON of the value is {}", j_any, j_val));
+                    } else if back != wa {
+                        cs.fail_last("any:roundtrip:carried", format!("{:?} came back as {:?}", wa, back));
+                    } else if bare != inner {
+                        cs.fail_last("any:roundtrip:carried", format!("Any::new({}) = {:?} read back as an Any is {:?}", txt, inner, bare));
+                    }
                 }
             }
         }
